@@ -1,6 +1,7 @@
 import Driver.Proto
 import Gotree.Spec.C01
 import Gotree.Model.C01Lit
+import Gotree.Model.C01Buf
 
 /-
   Handler of the C01 case lines (see harness/c01/c01.go for the producer).
@@ -121,6 +122,11 @@ def parseCase (texte outcome dump2 : String) : Verdict :=
       | .ok a, .ok b => a.dump == b.dump
       | a, b => outcomeClass a == outcomeClass b && mc != "ok"
     if !litSame then ⟨.tie, [mc], "literal node-stack machine differs: " ++ outcomeClass ml⟩ else
+    let mb := (Buf.parseB goCodec (Buf.fresh text.toList)).1
+    let bufSame := match m, mb with
+      | .ok a, .ok b => a.dump == b.dump
+      | a, b => outcomeClass a == outcomeClass b && mc != "ok"
+    if !bufSame then ⟨.tie, [mc], "literal unscan-buffer machine differs: " ++ outcomeClass mb⟩ else
     let tags := [mc] ++ tagIf (text.length > 3 && mc == "ok") "nontrivial-aux"
     match m with
     | .unrep _ =>
@@ -260,6 +266,12 @@ def handle (op : String) (f : List String) : Verdict :=
       -- the model of the ReadMultiTrees loop: Parse, then More, on the same reader (the harness stops after 12 turns)
       let ms := (parseWhileMore goCodec text.toList).take 12
       let mcls := ms.map outcomeClass
+      -- the literal Parser object (reader + unscan buffer, Model/C01Buf.lean) is run next to the positional model
+      let msB := (Buf.parseWhileMoreB goCodec (text.length + 1) (Buf.fresh text.toList)).take 12
+      let sameB := msB.map outcomeClass == mcls &&
+        (msB.filterMap fun o => match o with | .ok t => some t.dump | _ => none) ==
+        (ms.filterMap fun o => match o with | .ok t => some t.dump | _ => none)
+      if !sameB then ⟨.tie, ["more"], "literal unscan-buffer machine differs"⟩ else
       let nok := (mcls.filter (· == "ok")).length
       let tags := ["more" ++ toString nok] ++ tagIf (nok ≥ 2) "nontrivial-aux"
       -- an `unrep` of the model stands for a Go success with a non-finite value: compare up to there
